@@ -680,13 +680,18 @@ theorem post_reset {g : Graph} (H : Hyp g) {w : Nat} {s s0 : State} (f : WorkerD
       rw [wd_setWd_eq s0 w f hw] at h'
       rw [h'] at h; simp [Pc.isTest] at h
 
+/-- the strong form of `Post`: the walk part and the pc part hold -/
+def Strong (g : Graph) (w : Nat) (s s' : State) : Prop := Fr w s s' ∧ Loc g w s' ∧ Walk g w s' ∧ PcC g w s'
+
+theorem Strong.post {g : Graph} {w : Nat} {s : State} {r : Step} (h : Strong g w s r.1) : Post g w s r :=
+  ⟨h.1, h.2.1, fun _ => h.2.2.1, Or.inl h.2.2.2⟩
+
 theorem post_test {g : Graph} {w : Nat} {s s0 : State} (f : WorkerD → WorkerD) (n : Nat) (ph : Phase) (dir : Dir)
     (uid : String) (tag wt : Nat) (hw : w < s0.workers.length) (q : Quiet w s s0) (l : Loc g w s) (k : Walk g w s)
     (hlast : (s.wd w).path.getLast? = some n) (hdown : dir = .down → PShape g (s.wd w).path true)
-    (hp : ∀ d, (f d).path = d.path) (hpc : ∀ d, (f d).pc = .test n ph dir uid tag wt)
-    (evs : List Event) (fl : Flow) : Post g w s (s0.setWd w f, evs, fl) := by
+    (hp : ∀ d, (f d).path = d.path) (hpc : ∀ d, (f d).pc = .test n ph dir uid tag wt) : Strong g w s (s0.setWd w f) := by
   have q2 : Quiet w s (s0.setWd w f) := q.trans (quiet_setWd w s0 f hp)
-  refine ⟨q2.fr, q2.loc l, fun _ => q2.walk k, Or.inl ?_⟩
+  refine ⟨q2.fr, q2.loc l, q2.walk k, ?_⟩
   intro n' ph' dir' uid' tag' wait' hh
   have h' : ((s0.setWd w f).wd w).pc = .test n' ph' dir' uid' tag' wait' := hh
   rw [wd_setWd_eq s0 w f hw, hpc] at h'
@@ -764,11 +769,11 @@ theorem afterTraverse_cl {g : Graph} (H : Hyp g) (w : Nat) (s : State) (next pre
 theorem startTest_cl {g : Graph} (w : Nat) (s : State) (n : Nat) (ph : Phase) (dir : Dir)
     (hw : w < s.workers.length) (l : Loc g w s) (k : Walk g w s)
     (hlast : (s.wd w).path.getLast? = some n) (hdown : dir = .down → PShape g (s.wd w).path true) :
-    Post g w s (startTest g s n w ph dir) := by
+    Strong g w s (startTest g s n w ph dir).1 := by
   unfold startTest
   dsimp only
   split
-  · refine post_test _ n ph dir ?uid ?tag 0 ?hw ?q l k hlast hdown ?hp ?hpc _ _
+  · refine post_test _ n ph dir ?uid ?tag 0 ?hw ?q l k hlast hdown ?hp ?hpc
     case hpc => intro _; rfl
     case hw => exact hw
     case q => exact (quiet_tag w s _).1
@@ -776,7 +781,7 @@ theorem startTest_cl {g : Graph} (w : Nat) (s : State) (n : Nat) (ph : Phase) (d
   · have q : Quiet w s (({ s with nextTag := s.nextTag + 1 } : State).setNd n
         (fun d => { d with results := d.results ++ [{ name := (g.node n).name, status := "UNKNOWN", uid := "", tag := s.nextTag }] })) :=
       (quiet_tag w s _).1.trans (quiet_setNd w _ n _).1
-    refine post_test _ n ph dir ?uid2 ?tag2 0 ?hw ?q l k hlast hdown ?hp ?hpc _ _
+    refine post_test _ n ph dir ?uid2 ?tag2 0 ?hw ?q l k hlast hdown ?hp ?hpc
     case hpc => intro _; rfl
     case hw => exact hw
     case q => exact q
@@ -823,12 +828,12 @@ theorem traverseNode_cl {g : Graph} (H : Hyp g) (w : Nat) (s : State) (next prev
             (by rw [h2.1.path]; exact hlast1) (by rw [h2.1.path]; exact hdown1)
           rcases hst : startTest g (s1.setWd w F) next w .pre dir with ⟨s2, evs2, f⟩
           rw [hst] at h3
-          exact Post.of_same h2 (h3.evs _)
+          exact Post.of_same h2 (Strong.post (r := (s2, evs ++ evs2, f)) h3)
         · simp only [hroot, Bool.false_eq_true, if_false]
           have h3 := startTest_cl (g := g) w s1 next .plain dir hw1 l1 k1 hlast1 hdown1
           rcases hst : startTest g s1 next w .plain dir with ⟨s2, evs2, f⟩
           rw [hst] at h3
-          exact h3.evs _
+          exact Strong.post (r := (s2, evs ++ evs2, f)) h3
       · simp only [hrun, Bool.false_eq_true, if_false]
         have h2 : Same w s1 (finishTraverse s1 next w) := same_finishTraverse w s1 next w
         have h3 := afterTraverse_cl H w (finishTraverse s1 next w) next prev dir (by rw [h2.1.wl]; exact hw1)
